@@ -289,6 +289,7 @@ type SolveConfig struct {
 	Timeout  int
 	Dir      string
 	AllAgree bool
+	NoRetry  bool
 	Seed     int
 }
 
@@ -352,7 +353,7 @@ func (w *World) Solve(ob *Obligation, cfg *SolveConfig, idx int) {
 				stillOpen = false
 			}
 		}
-		if stillOpen && !cfg.AllAgree {
+		if stillOpen && !cfg.AllAgree && !cfg.NoRetry {
 			rctx3, rcancel3 := context.WithCancel(context.Background())
 			ch3 := make(chan solveOut, 3)
 			long := cfg.Timeout * 4
